@@ -5,7 +5,7 @@ import itertools
 import math
 
 from mc import dbe, decobs
-from mc.core import pmap, short_hash
+from mc.core import pmap, short_hash, run_tasks
 from mc.decobs import typed
 from props.c01_tables import labels, numeric_forms
 from ref import decmodel
@@ -226,8 +226,7 @@ def run(ctx):
     ctx.log(f"{n_dbe} scenarios with <= {bound} deviations + {len(ph)} PHOTOS-flag sequences")
     ctx.sample({"origin": items[0][0], "text": decmodel.render(items[0][2])})
     ctx.rng.shuffle(items)
-    for r in pmap(work, [items[i:i + 40] for i in range(0, len(items), 40)], ctx.workers):
-        ctx.absorb(r)
+    run_tasks(ctx, work, [items[i:i + 40] for i in range(0, len(items), 40)])
     ctx.count(states=stats["nodes"] + len(ph), transitions=stats["choices"] + sum(len(a) for _o, _n, a in ph))
     ctx.part("dbe", scenarios=n_dbe, deviation_bound=bound, per_dimension_max=stats["per_dimension_max"])
     ctx.part("photos-sequences", files=len(ph), max_flags=4 if ctx.thorough else 3, complete=True)
@@ -238,10 +237,8 @@ def run(ctx):
             grp = sweep[i:i + per]
             packed.append((["pack", name, i], 0, [st for _o, a in grp for st in a]))
         single = [(o, 0, a) for o, a in sweep]
-        for r in pmap(work, [packed[i:i + 2] for i in range(0, len(packed), 2)], ctx.workers):
-            ctx.absorb(r)
-        for r in pmap(work, [single[i:i + 40] for i in range(0, len(single), 40)], ctx.workers):
-            ctx.absorb(r)
+        run_tasks(ctx, work, [packed[i:i + 2] for i in range(0, len(packed), 2)])
+        run_tasks(ctx, work, [single[i:i + 40] for i in range(0, len(single), 40)])
         ctx.count(states=len(sweep), transitions=sum(len(a) for _o, a in sweep))
         ctx.part(name, cases=len(sweep), complete=True)
     ctx.extra["bound_completed"] = {"deviations": bound}
